@@ -99,10 +99,14 @@ const (
 	// deadline); the endpoint stays open, later writes go through and reads keep working.
 	FaultWriteErrOnly     // the write reaching the offset returns an error, nothing of it delivered
 	FaultWritePartialOnly // bytes before the offset are delivered, then the write returns an error
+	// Not fail-stop either: the one read returns the bytes before the offset together with an
+	// error (or (0, err) when there are none), as a read whose deadline expires mid-way does;
+	// the endpoint stays open and later reads deliver the rest of the byte stream.
+	FaultReadDataErrOnly
 )
 
 func (k FaultKind) String() string {
-	return [...]string{"none", "write-err", "write-partial", "read-err", "read-data-err", "peer-eof", "peer-reset", "local-close", "write-err-only", "write-partial-only"}[k]
+	return [...]string{"none", "write-err", "write-partial", "read-err", "read-data-err", "peer-eof", "peer-reset", "local-close", "write-err-only", "write-partial-only", "read-data-err-only"}[k]
 }
 
 // IsWrite reports whether the fault is positioned on the outgoing byte stream.
@@ -111,7 +115,9 @@ func (k FaultKind) IsWrite() bool {
 }
 
 // FailStop reports whether the endpoint is dead after the fault.
-func (k FaultKind) FailStop() bool { return k != FaultWriteErrOnly && k != FaultWritePartialOnly }
+func (k FaultKind) FailStop() bool {
+	return k != FaultWriteErrOnly && k != FaultWritePartialOnly && k != FaultReadDataErrOnly
+}
 
 // Fault is a fail-stop fault plan for one endpoint.
 type Fault struct {
@@ -224,6 +230,36 @@ type End struct {
 	deadReads            int32 // reads issued after the endpoint had failed
 	dead                 chan struct{}
 	deadOnce             sync.Once
+
+	holdClose   chan struct{} // if set, the first Close returns only after ReleaseClose
+	closeHeld   bool
+	releaseOnce sync.Once
+}
+
+// HoldClose makes the first Close of the endpoint a slow one (as tls.Conn.Close writing its
+// close_notify to a peer that does not read is): everything is torn down as usual, the peer and
+// the local operations see it, but the call itself returns only after ReleaseClose.
+func (e *End) HoldClose() {
+	e.mu.Lock()
+	e.holdClose = make(chan struct{})
+	e.mu.Unlock()
+}
+
+// CloseHeld reports whether a Close call is being held right now or has been.
+func (e *End) CloseHeld() bool {
+	e.mu.Lock()
+	defer e.mu.Unlock()
+	return e.closeHeld
+}
+
+// ReleaseClose lets a held Close return.
+func (e *End) ReleaseClose() {
+	e.mu.Lock()
+	ch := e.holdClose
+	e.mu.Unlock()
+	if ch != nil {
+		e.releaseOnce.Do(func() { close(ch) })
+	}
 }
 
 // Pair is a connected pair of endpoints.
@@ -626,7 +662,7 @@ func (e *End) Read(b []byte) (n int, err error) {
 			e.rOff += int64(n)
 			var ferr error
 			switch fault.Kind {
-			case FaultReadErr, FaultReadDataErr:
+			case FaultReadErr, FaultReadDataErr, FaultReadDataErrOnly:
 				ferr = ErrFault
 				if fault.Temporary {
 					ferr = ErrFaultTemporary
@@ -640,11 +676,19 @@ func (e *End) Read(b []byte) (n int, err error) {
 			}
 			p.mu.Unlock()
 			if fault.Kind == FaultLocalClose {
-				_ = e.Close()
-			} else {
+				_ = e.close(false)
+			} else if fault.Kind.FailStop() {
 				e.failStop(ferr, false)
 			}
 			p.mu.Lock()
+			if fault.Kind == FaultReadDataErrOnly {
+				if len(p.buf) == 0 {
+					p.buf = nil
+				}
+				census.Bump()
+				p.cond.Broadcast()
+				return n, ferr
+			}
 			if n > 0 && fault.Kind != FaultReadDataErr {
 				// data first, the error on the next call (which fails by fail-stop)
 				return n, nil
@@ -665,7 +709,9 @@ func (e *End) Read(b []byte) (n int, err error) {
 
 // Close implements io.Closer. The first call tears the endpoint down and
 // releases every parked or blocked local operation.
-func (e *End) Close() error {
+func (e *End) Close() error { return e.close(true) }
+
+func (e *End) close(mayHold bool) error {
 	e.mu.Lock()
 	e.closeCount++
 	e.closes = append(e.closes, Tick())
@@ -684,6 +730,18 @@ func (e *End) Close() error {
 	e.out.cond.Broadcast()
 	e.out.mu.Unlock()
 	census.Bump()
+	e.mu.Lock()
+	hold := e.holdClose
+	if !mayHold {
+		hold = nil
+	}
+	if hold != nil {
+		e.closeHeld = true
+	}
+	e.mu.Unlock()
+	if hold != nil {
+		<-hold
+	}
 	return nil
 }
 
